@@ -233,7 +233,7 @@ func (s *Sim) onEvent(oi int, h ecs.Entity, ptrs []unsafe.Pointer) {
 	}
 	t.fired = append(t.fired, firing{Obs: oi, H: h, Ev: o.Spec.Ev})
 	if s.Flags.Observe {
-		s.firedLog = append(s.firedLog, fmt.Sprintf("%d:%d:%d", oi, o.Spec.Ev, s.labelOrPending(t, h)))
+		s.firedRaw = append(s.firedRaw, firing{Obs: oi, H: h, Ev: o.Spec.Ev})
 	}
 	s.C.Faults["cb_invocations"]++
 
